@@ -322,7 +322,11 @@ def announce(ctx, meth, signal, table):
             ifaces = body[1][1][1] if okb else None
             okl = any(ev[0] == 'loop' and contains(
                 ev[3], lambda x: is_method_call(x, 'getInterfaces'))
-                for ev in p.trace)
+                for ev in p.trace) or (
+                # ... or built in one unfiltered comprehension over them
+                kind(ifaces) == 'comp' and not ifaces[5] and
+                len(ifaces[3]) == 1 and
+                is_method_call(ifaces[3][0], 'getInterfaces'))
             ctx.ob('C16.D2', fi.qualname, 'lists-all-interfaces', okl,
                    'the announcement must list every interface of the '
                    'object')
